@@ -1,7 +1,7 @@
 (* Dispatch.v -- single entry point of the executable model: opcode * argument -> result.
    Used identically by the extracted OCaml driver and by in-Coq vm_compute samples. *)
 From Coq Require Import List ZArith.
-From Yv Require Import Base.Sx Run.RunSym.
+From Yv Require Import Base.Sx Run.RunSym Run.RunGeom.
 Import ListNotations.
 Open Scope Z_scope.
 
@@ -9,6 +9,11 @@ Definition run (op : Z) (arg : sx) : sx :=
   match op with
   | 1 => run_fuse arg
   | 2 => run_leg_make arg
+  | 10 => run_sq_lists arg
+  | 11 => run_sq_pointwise arg
+  | 12 => run_ruc arg
+  | 13 => run_special arg
+  | 14 => run_lattice arg
   | _ => sErr 999
   end.
 
